@@ -1,9 +1,13 @@
 (* Dispatch table of the extracted model executable: one command per modelled function. *)
 From FV Require Import Base.Prelude Model.ScriptBlocks Model.MathFuncs gen.MathTable Cpp.IR Cpp.Exec.
+From FV Require Import Cpp.FillConsistent Model.TreeSchema.
 
 Definition dispatch (cmd : string) (arg : sexp) : sexp :=
   if String.eqb cmd "c15.gen" then ScriptBlocks.run_gen arg
   else if String.eqb cmd "c12.audit" then MathFuncs.audit math_env documented
   else if String.eqb cmd "cpp.print" then IR.run_print arg
   else if String.eqb cmd "cpp.run" then Exec.run_run arg
+  else if String.eqb cmd "c03.schema" then TreeSchema.run_schema arg
+  else if String.eqb cmd "c03.expected" then TreeSchema.run_expected arg
+  else if String.eqb cmd "c03.fillcheck" then FillConsistent.run_fillcheck arg
   else s_tag "unknown-command" [SAtom cmd].
